@@ -314,16 +314,16 @@ def _assert_3d_array(out, func):
 
 
 def _ge(a, b) -> NDArray[np.float32]:
-    return np.greater_equal(a, b, dtype=np.float32)
+    return np.greater_equal(a, b).astype(np.float32)
 
 
 def _le(a, b) -> NDArray[np.float32]:
-    return np.less_equal(a, b, dtype=np.float32)
+    return np.less_equal(a, b).astype(np.float32)
 
 
 def _gt(a, b) -> NDArray[np.float32]:
-    return np.greater(a, b, dtype=np.float32)
+    return np.greater(a, b).astype(np.float32)
 
 
 def _lt(a, b) -> NDArray[np.float32]:
-    return np.less(a, b, dtype=np.float32)
+    return np.less(a, b).astype(np.float32)
